@@ -672,6 +672,13 @@ class _SchemaP:
 def col(name=None, *more):
     import polars as pl
 
+    if isinstance(name, str) and name.startswith("^") and name.endswith("$"):
+        # polars: a name that starts with ^ and ends with $ is a REGEX over the column names
+        import re
+
+        pat = re.compile(name)
+        e = Expr(None, None, multi=lambda fr: [n for n in fr.cols if pat.fullmatch(n) or pat.match(n)])
+        return _multi(e)
     if isinstance(name, str) and name != "*":
         return Expr(lambda fr, n=name: _col_of(fr, n), name)
     if name == "*":
